@@ -90,6 +90,11 @@ class _IntKeyed:
             self._vlen = len(v0)
             self._vw = 8 * len(v0)
             ints = [int.from_bytes(v, "big") for v in values]
+        elif all(_isinstance(v, str) and len(v) == len(v0) and all(ord(c) < 256 for c in v) for v in values) and len(v0) > 0:
+            self._kind = "str"
+            self._vlen = len(v0)
+            self._vw = 8 * len(v0)
+            ints = [int.from_bytes(v.encode("latin-1"), "big") for v in values]
         else:
             self._kind = None
             return
@@ -107,6 +112,9 @@ class _IntKeyed:
         for j in range(self._vlen):
             base = 8 * (self._vlen - 1 - j)
             out.append(_assemble(outbits[base:base + 8]))
+        if self._kind == "str":
+            from .strings import mkstr
+            return mkstr(out)
         return mkbytes(out)
 
     def _lookup(self, key):
@@ -256,6 +264,6 @@ def wrap_value(v):
         if all(type(x) is list for x in vals):
             return SymDict({k: SymList(x) for k, x in v.items()})
         return SymTable(v)
-    if type(v) is list and len(v) >= 16 and all(isinstance(x, (int, bytes)) and not isinstance(x, bool) for x in v):
+    if type(v) is list and len(v) >= 16 and all(isinstance(x, (int, bytes, str)) and not isinstance(x, bool) for x in v):
         return SymList(v)
     return None
